@@ -30,6 +30,32 @@ theorem qok_del {t : Tbl} {k : Nat} (h : QOK t) : QOK (t.del k) := by
 
 theorem sq_empty (s : Sess) : SQ { s with q := [] } := by intro l hl; cases hl
 
+theorem takeOwn_fst_sub {q : List Leaf} {l : Leaf} (h : l ∈ (takeOwn q).1) : l ∈ q := by
+  cases q with
+  | nil => simp [takeOwn] at h
+  | cons a as =>
+    by_cases hc : a.crypt = true
+    · simp only [takeOwn, hc, if_true, List.mem_singleton] at h
+      subst h; exact List.mem_cons_self
+    · simp only [takeOwn, hc] at h
+      rcases List.mem_cons.mp h with h | h
+      · subst h; exact List.mem_cons_self
+      · exact List.mem_cons_of_mem _ ((List.takeWhile_sublist _).subset h)
+
+theorem takeOwn_snd_sub {q : List Leaf} {l : Leaf} (h : l ∈ (takeOwn q).2) : l ∈ q := by
+  cases q with
+  | nil => simp [takeOwn] at h
+  | cons a as =>
+    by_cases hc : a.crypt = true
+    · simp only [takeOwn, hc, if_true] at h
+      exact List.mem_cons_of_mem _ h
+    · simp only [takeOwn, hc] at h
+      exact List.mem_cons_of_mem _ ((List.dropWhile_sublist _).subset h)
+
+theorem sq_kept (s : Sess) (hs : SQ s) : SQ s.kept := by
+  intro l hl
+  exact hs l (takeOwn_snd_sub hl)
+
 theorem sq_newSess (n : Sub) : SQ (newSess n) := by
   unfold newSess
   split
@@ -40,7 +66,7 @@ theorem nextAll_dev (s : Sess) (hs : SQ s) : ∀ l ∈ nextAll s, l.dev = s.id :
   unfold nextAll
   split
   · intro l hl; simp at hl; subst hl; rfl
-  · exact hs
+  · intro l hl; exact hs l (takeOwn_fst_sub hl)
 
 variable {P : ID → Prop}
 
@@ -68,7 +94,7 @@ theorem talkSub_out (hash : ID → Nat) (closing : Bool) (t : Tbl) (n : Sub) (o 
           all_goals first
             | (refine ⟨qok_set hq hn, fun so h => ?_⟩; cases h; done)
             | (refine ⟨qok_set hq hn, fun so h => ?_⟩; cases h; intro l hl; simp at hl; done)
-            | (refine ⟨qok_set hq (sq_empty _), fun so h => ?_⟩; cases h; intro l hl; rw [hn l hl, hid])
+            | (refine ⟨qok_set hq (sq_kept _ hn), fun so h => ?_⟩; cases h; intro l hl; rw [hn l (takeOwn_fst_sub hl), hid])
     · rename_i s hf
       obtain ⟨hid, hget⟩ := find_own hf
       have hs := hq _ s hget
@@ -77,7 +103,7 @@ theorem talkSub_out (hash : ID → Nat) (closing : Bool) (t : Tbl) (n : Sub) (o 
       all_goals first
         | (refine ⟨hq, fun so h => ?_⟩; cases h; done)
         | (refine ⟨hq, fun so h => ?_⟩; cases h; intro l hl; simp at hl; done)
-        | (refine ⟨qok_set hq (sq_empty _), fun so h => ?_⟩; cases h; intro l hl; rw [hs l hl, hid])
+        | (refine ⟨qok_set hq (sq_kept _ hs), fun so h => ?_⟩; cases h; intro l hl; rw [hs l (takeOwn_fst_sub hl), hid])
 
 /-- processMultiple: the packed leaves name the host or the sender of an element. -/
 theorem multiLoop_out (hash : ID → Nat) (closing : Bool) (x : Nat) (vs : List Sub) (hs : Sess) (t : Tbl)
@@ -102,7 +128,7 @@ theorem multiLoop_out (hash : ID → Nat) (closing : Bool) (x : Nat) (vs : List 
           · dsimp only; exact ih vs hs t hq hsq hP hvs'
           · split
             · dsimp only
-              obtain ⟨h1, h2, h3⟩ := ih vs { hs with q := [] } t hq (sq_empty hs) hP hvs'
+              obtain ⟨h1, h2, h3⟩ := ih vs hs.kept t hq (sq_kept hs hsq) hP hvs'
               refine ⟨h1, h2, fun l k h => ?_⟩
               split at h
               · rename_i l' k' heq
@@ -162,11 +188,11 @@ theorem resolveLoop_out {tagP : ID → Prop} (host : ID) (idx : Nat) (tags : Lis
               dsimp only
               split
               · exact ih _ _ _ hq hrest hc
-              · refine ih _ _ _ (qok_set hq (sq_empty v)) (tagsOK_set (v' := { v with q := [] }) hrest hv rfl) ?_
+              · refine ih _ _ _ (qok_set hq (sq_kept v (hq _ v hv))) (tagsOK_set (v' := v.kept) hrest hv rfl) ?_
                 intro y hy
                 rcases List.mem_append.mp hy with hy | hy
                 · exact hc y hy
-                · rw [hq _ v hv y hy]; exact hal
+                · rw [hq _ v hv y (takeOwn_fst_sub hy)]; exact hal
 
 theorem process_out (hash : ID → Nat) (closing : Bool) (hs : Sess) (t : Tbl) (n : Pkt) (c : Conn)
     (hq : QOK t) (hsq : SQ hs) (hP : P hs.id) (hvs : ∀ v ∈ n.subs, P v.dev) (hc : ∀ y ∈ c.add, P y.dev) :
@@ -193,7 +219,7 @@ theorem process_out (hash : ID → Nat) (closing : Bool) (hs : Sess) (t : Tbl) (
   · dsimp only
     split
     · exact ⟨hq, hsq, fun l k h => by cases h⟩
-    · refine ⟨hq, sq_empty hs, fun l k h => ?_⟩
+    · refine ⟨hq, sq_kept hs hsq, fun l k h => ?_⟩
       cases h
       intro y hy
       rcases List.mem_append.mp hy with hy | hy
